@@ -690,22 +690,28 @@ func opCleanMono(a []string) string {
 	return obsClean(runCleaner(UnN(a[0]), UnN(a[1]), t, bootsIff(reqList(a[3]))))
 }
 
+// selector of the Remove ops: g<guid> FindFileGUIDPredicate, r<guid> the `remove`
+// command's regex on GUID strings and UI names, p<code> predOf(code)
+func selPred(sel string) visitors.FindPredicate {
+	switch sel[0] {
+	case 'g':
+		return visitors.FindFileGUIDPredicate(gidOf(unBig(sel[1:])))
+	case 'r':
+		p, err := visitors.FindFilePredicate(gidOf(unBig(sel[1:])).String())
+		if err != nil {
+			panic(err)
+		}
+		return p
+	default:
+		return predOf(UnN(sel[1:]))
+	}
+}
+
 // C remove pol pad sel img k: Remove.Run, k calls of Undo, then Undo until nil
 func opRemove(a []string) string {
 	uefi.Attributes.ErasePolarity = byte(UnN(a[0]))
 	t := buildTree(a[3])
-	var p visitors.FindPredicate
-	if a[2][0] == 'g' {
-		p = visitors.FindFileGUIDPredicate(gidOf(unBig(a[2][1:])))
-	} else if a[2][0] == 'r' { // the `remove` command: regex on GUID strings and UI names
-		var err error
-		if p, err = visitors.FindFilePredicate(gidOf(unBig(a[2][1:])).String()); err != nil {
-			panic(err)
-		}
-	} else {
-		p = predOf(UnN(a[2][1:]))
-	}
-	r := &visitors.Remove{Predicate: p, Pad: a[1] == "1"}
+	r := &visitors.Remove{Predicate: selPred(a[2]), Pad: a[1] == "1"}
 	if err := r.Run(t.root); err != nil {
 		return ErrClass(err, errTable)
 	}
@@ -727,13 +733,20 @@ func opRemove(a []string) string {
 
 // common part: build, check the theorems' hypothesis, run
 func propRun(a []string, test func(int, *tree) (bool, error)) (*tree, *runResult, []guid.GUID, bool) {
-	t := buildTree(a[2])
-	cands := candidates(t, predOf(UnN(a[1])))
-	if !wfTree(t, cands) {
+	t, r, cands, wf := propRunAny(a, test)
+	if !wf {
 		return nil, nil, nil, false
 	}
-	r := runCleaner(UnN(a[0]), UnN(a[1]), t, test)
 	return t, r, cands, true
+}
+
+// the same without demanding the well-formedness hypothesis: wf tells whether it holds
+func propRunAny(a []string, test func(int, *tree) (bool, error)) (*tree, *runResult, []guid.GUID, bool) {
+	t := buildTree(a[2])
+	cands := candidates(t, predOf(UnN(a[1])))
+	wf := wfTree(t, cands)
+	r := runCleaner(UnN(a[0]), UnN(a[1]), t, test)
+	return t, r, cands, wf
 }
 
 func guidSet(gs []guid.GUID) map[guid.GUID]bool {
@@ -747,9 +760,21 @@ func guidSet(gs []guid.GUID) map[guid.GUID]bool {
 // P p_final: Run returned nil => tree = original minus exactly the reported GUIDs
 // (same objects, same order), within (n+1)^2 tests
 func pFinal(a []string) string {
-	t, r, cands, ok := propRun(a, scripted(a[3]))
-	if !ok || r.err != nil {
+	t, r, cands, wf := propRunAny(a, scripted(a[3]))
+	if r.err != nil {
 		return "skip"
+	}
+	if !wf {
+		// a PEIM file shares a candidate's GUID (it is padded, not deleted): the
+		// clause is only claimed for an empty report — nothing reported, nothing
+		// changed (C11_nothing_reported_nothing_changed needs no hypothesis)
+		if len(r.removals) != 0 {
+			return "skip"
+		}
+		if v := sameSnap(r.final, t.orig); v >= 0 {
+			return fmt.Sprintf("FAIL final-differs-from-report vol=%d after=peim-shares-guid reported=0", v)
+		}
+		return "ok"
 	}
 	if v := sameSnap(r.final, minusGuids(t.orig, guidSet(r.removals))); v >= 0 {
 		last := "end"
@@ -799,21 +824,56 @@ func pAccepted(a []string) string {
 // P p_undone: after a rejected test the tree is what it was before the removal
 // (observed when the next attempt is announced, or at the end)
 func pUndone(a []string) string {
-	_, r, _, ok := propRun(a, scripted(a[3]))
-	if !ok || r.err != nil {
-		return "skip"
-	}
+	// no hypothesis on the tree: C11_reject_fully_undone holds from any state
+	_, r, _, _ := propRunAny(a, scripted(a[3]))
 	for k, c := range r.calls {
-		if c.ok || c.err == context.Canceled {
-			continue
+		if c.accepted() || (c.ok && c.err != context.Canceled) {
+			continue // accepted, or (true, err): Run returned the error
 		}
-		after := r.final
-		if k+1 < len(r.calls) {
+		what := "reject"
+		var after snapT
+		switch {
+		case k+1 < len(r.calls):
 			after = r.calls[k+1].pre
+		case r.err == nil:
+			after = r.final
+		default:
+			continue // Run ended with an error right after: no later observation point
+		}
+		if c.err == context.Canceled {
+			what = "cancel"
 		}
 		if v := sameSnap(after, c.pre); v >= 0 {
-			return fmt.Sprintf("FAIL reject-not-undone call=%d vol=%d", k, v)
+			return fmt.Sprintf("FAIL %s-not-undone call=%d vol=%d", what, k, v)
 		}
+	}
+	if len(r.calls) == 0 {
+		return "skip"
+	}
+	return "ok"
+}
+
+// P p_unwind pol pad sel img: Remove.Run, then Undo until it is nil: the tree is
+// the one it was given, same objects in the same order at every depth
+// (C11_remove_unwind_identity: any predicate, pad mode or not, no hypothesis)
+func pUnwind(a []string) string {
+	uefi.Attributes.ErasePolarity = byte(UnN(a[0]))
+	t := buildTree(a[3])
+	r := &visitors.Remove{Predicate: selPred(a[2]), Pad: a[1] == "1"}
+	if err := r.Run(t.root); err != nil {
+		return "skip"
+	}
+	changed := sameSnap(t.snap(), t.orig) >= 0
+	n := 0
+	for r.Undo != nil {
+		r.Undo()
+		n++
+	}
+	if v := sameSnap(t.snap(), t.orig); v >= 0 {
+		return fmt.Sprintf("FAIL remove-undo-not-identity vol=%d undos=%d pad=%s", v, n, a[1])
+	}
+	if changed && n == 0 {
+		return "FAIL changed-without-undo"
 	}
 	return "ok"
 }
@@ -1240,6 +1300,46 @@ func gen(r *Rng, tier string, emit Emit) {
 			emit("C", "remove", "ff", "0", "g1", "I!"+img, k)
 		}
 	}
+	// 1f. a PEIM file carries the GUID of a candidate driver (Remove pads PEIM
+	// files instead of deleting them): same volume before / after the driver,
+	// another volume, twice, nested, volume root; every outcome on that GUID.
+	// The hypothesis of the report theorems fails here; what is claimed without
+	// it is checked: rejected / cancelled removals are undone, an empty report
+	// means an untouched tree, Remove + Undo is the identity
+	peim := []string{
+		"1.6.20,3.2.20/1.7.20,2.7.20",
+		"1.7.20,2.7.20/1.6.20,3.2.20",
+		"1.6.20,1.7.20,2.7.20",
+		"1.7.20,1.6.20",
+		"1.6.28,2.6.20/1.7.20,1.6.40/2.7.20",
+		"2.7.20<1.6.20,3.7.20>,1.7.20",
+		"8.2.20<1.7.20>/1.6.20,2.7.20",
+		"V!1.7.20,2.7.20,1.6.20",
+	}
+	sc1f := scripts(3)
+	for _, img := range peim {
+		for _, s := range sc1f {
+			all("ff", "0", img, s)
+		}
+		all("0", "0", img, "1")
+		all("f0", "0", img, "1") // CreatePadFile refuses: Run returns the error
+		emit("C", "cleanmono", "ff", "0", img, "1")
+		emit("C", "cleanmono", "ff", "0", img, "2")
+		for _, sel := range []string{"g1", "g2", "p0", "p1", "r1"} {
+			for _, pad := range []string{"0", "1"} {
+				emit("P", "p_unwind", "ff", pad, sel, img)
+				for _, k := range []string{"0", "1", "2"} {
+					emit("C", "remove", "ff", pad, sel, img, k)
+				}
+			}
+		}
+	}
+	for _, img := range nested {
+		for _, sel := range []string{"g1", "g3", "p0", "p2"} {
+			emit("P", "p_unwind", "ff", "0", sel, img)
+			emit("P", "p_unwind", "ff", "1", sel, img)
+		}
+	}
 	if thorough {
 		vs3 := volumes(3, 2)
 		sc3 := scripts(5)
@@ -1299,6 +1399,7 @@ func gen(r *Rng, tier string, emit Emit) {
 			pad = "1"
 		}
 		emit("C", "remove", pol, pad, sel, img, N(uint64(rr.Pick(0, 0, 0, 1, 1, 1, 2, 6))))
+		emit("P", "p_unwind", pol, pad, sel, img)
 	}
 	// 3. boundary: nothing to clean
 	for _, img := range []string{"-", "", "/", "1.2.20", "1.6.20/1.6.20"} {
@@ -1315,6 +1416,7 @@ func main() {
 	Register("p_final", pFinal)
 	Register("p_accepted", pAccepted)
 	Register("p_undone", pUndone)
+	Register("p_unwind", pUnwind)
 	Register("p_mono", pMono)
 	Main(gen)
 }
